@@ -74,6 +74,12 @@ Sites == <<
   (* a record whose bytes 2..4 look like an SSLv2 hello (message type 1, version 3.x): still a record of the given type *)
   S("record_type_raw_sslv2_lookalike", "parse_tls_raw_record", NoArgs, <<>>, 1, <<3, 1, 3, 3>> \o Fill(5, 771), "hdr.ct"),
   S("record_type_encrypted_sslv2_lookalike", "parse_tls_encrypted", NoArgs, <<>>, 1, <<2, 1, 3, 0>> \o Fill(6, 768) \o <<1>>, "hdr.ct"),
+  (* the (hash, signature) pair as ONE 16-bit code point: all 65536 pairs, through every structure that carries it *)
+  S("signature_pair", "parse_digitally_signed", NoArgs, <<>>, 2, <<0, 1, 7>>, "alg.0.hash+alg.0.sign"),
+  S("signature_pair_in_sct", "parse_ct_signed_certificate_timestamp", NoArgs, <<0, 47, 0>> \o R32 \o <<0, 0, 0, 0, 0, 0, 0, 1, 0, 0>>, 2, <<0, 0>>,
+    "sig.alg.0.hash+sig.alg.0.sign"),
+  S("signature_pair_in_key_exchange", "parse_content_and_signature", [NoArgs EXCEPT !.sub = "ecdh", !.ext = 1], <<3, 0, 23, 1, 4>>, 2, <<0, 1, 9>>,
+    "sig.alg.0.hash+sig.alg.0.sign"),
   S("record_version_handshake", "parse_tls_plaintext", NoArgs, <<22>>, 2, <<0, 4, 14, 0, 0, 0>>, "hdr.ver"),
   S("record_version_ccs", "tls_parser", NoArgs, <<20>>, 2, <<0, 1, 1>>, "hdr.ver"),
   S("dtls_server_hello_version", "parse_dtls_message_handshake", NoArgs, <<2, 0, 0, 44, 0, 1, 0, 0, 0, 0, 0, 44>>, 2,
@@ -112,6 +118,8 @@ Acc(site, v) ==
     [] site = "named_group_esni" -> v.group [] site = "esni_cipher" -> v.cipher
     [] site = "signature_scheme_in_extension" -> v.algs[1]
     [] site = "signature_algorithm_cert_request" -> v.m.sigalgs[1][1]
+    [] site = "signature_pair" -> v.alg[1].hash * 256 + v.alg[1].sign
+    [] site \in {"signature_pair_in_sct", "signature_pair_in_key_exchange"} -> v.sig.alg[1].hash * 256 + v.sig.alg[1].sign
     [] site = "hash_algorithm" -> v.alg[1].hash [] site = "sign_algorithm" -> v.alg[1].sign
     [] site = "sni_name_type" -> v.names[1].nt
     [] site = "status_type_in_extension" -> v.req[1].st
